@@ -14,8 +14,9 @@
 //!   * tag_name() is Some for start / end / self-closing tokens                                sig tag-name-none
 //!   * when the input is valid UTF-8 every accessor returns Ok                                 sig accessor-fails-on-valid-utf8
 //!   * no panic (caught by the framework, debug assertions + overflow checks on)               sig panic
-//!   * raw_tag() is "" or one of the ten raw-text element names, and "" after a token that did not hit the end of the
-//!     data unless that token is a start tag                                                   sig raw-tag-context
+//!   * raw_tag() is "" or one of the ten raw-text element names; non-empty only after a (self-closing) start tag or in
+//!     plaintext; after a start OR SELF-CLOSING tag it is the lower-cased tag name iff that is one of the ten names
+//!     (read_start_tag assigns raw_tag before it looks at the solidus), else ""                  sig raw-tag-context
 use redirectionio::html::{TokenType, Tokenizer};
 use rio_harness::*;
 use serde_json::{json, Value};
@@ -75,6 +76,7 @@ fn observe_with(input: &[u8], ctx: Option<&str>, cdata: bool) -> One {
             setfail(&mut fail, format!("more than len+2 calls of next() on {}", hex(input)), "no-progress");
             break;
         }
+        let ctx_before = tk.raw_tag().to_string();
         let tt = match tk.next() {
             Ok(t) => t,
             Err(e) => {
@@ -93,6 +95,16 @@ fn observe_with(input: &[u8], ctx: Option<&str>, cdata: bool) -> One {
                 setfail(&mut fail, format!("raw_tag() = {rt:?} is not a raw-text element name on {}", hex(input)), "raw-tag-context");
             } else if !rt.is_empty() && rt != "plaintext" && tt != TokenType::StartTagToken && tt != TokenType::SelfClosingTagToken {
                 setfail(&mut fail, format!("raw_tag() = {rt:?} after a token that is not a start tag on {}", hex(input)), "raw-tag-context");
+            } else if (tt == TokenType::StartTagToken || tt == TokenType::SelfClosingTagToken) && ctx_before != "plaintext" {
+                // read_start_tag assigns raw_tag BEFORE it looks at the solidus: a raw-text element's start tag sets the
+                // context to its lower-cased name whether or not it is written with self-closing syntax (`<script src=a />`,
+                // `<title/>`), every other start tag leaves "" (the context before a tag token is "" unless it is plaintext)
+                let raw = tk.raw();
+                let name: Vec<u8> = raw.iter().skip(1).take_while(|b| !matches!(**b, b' ' | b'\n' | b'\r' | b'\t' | 0x0c | b'/' | b'>')).map(|b| b.to_ascii_lowercase()).collect();
+                let expect: &str = RAW.iter().copied().find(|n| !n.is_empty() && n.as_bytes() == &name[..]).unwrap_or("");
+                if rt != expect {
+                    setfail(&mut fail, format!("raw_tag() = {rt:?} after the {} tag {:?}, expected {expect:?}, on {}", if tt == TokenType::StartTagToken { "start" } else { "self-closing" }, String::from_utf8_lossy(&name), hex(input)), "raw-tag-context");
+                }
             }
         }
         let raw = tk.raw();
@@ -271,7 +283,7 @@ fn rand_piece(rng: &mut Prng) -> String {
             rng.pick(D).to_string()
         }
         14..=16 => {
-            let open = *rng.pick(&["<script>", "<SCRIPT>", "<script type=\"x\">", "<script >", "<script/>"]);
+            let open = *rng.pick(&["<script>", "<SCRIPT>", "<script type=\"x\">", "<script >", "<script/>", "<script />", "<script src=a />", "<ScRiPt/ >", "<SCRIPT a=b/>"]);
             let close = *rng.pick(&["</script>", "</SCRIPT>", "</script >", "", "</scr", "</script"]);
             format!("{open}{}{close}", rand_script_body(rng))
         }
@@ -288,7 +300,10 @@ fn rand_piece(rng: &mut Prng) -> String {
                 2 => format!("</{n} >"),
                 _ => format!("</{n}>"),
             };
-            format!("<{n}>{body}{close}")
+            // the start tag: plain, with attributes, or written with a solidus (the context is set all the same)
+            let open_end = if rng.chance(1, 3) { *rng.pick(SELF_CLOSE) } else { ">" };
+            let n_open = rng.pick(&case_variants(n)).clone();
+            format!("<{n_open}{open_end}{body}{close}")
         }
         _ => {
             let n = rng.range(1, 6);
@@ -488,9 +503,36 @@ fn fragment_cases(emit: &mut dyn FnMut(Value)) {
     }
 }
 
+/// the ten raw-text element names
+const RAW_NAMES: &[&str] = &["iframe", "noembed", "noframes", "noscript", "plaintext", "script", "style", "title", "textarea", "xmp"];
+/// ways to write the end of a start tag with a solidus (and the plain `>` for comparison)
+const SELF_CLOSE: &[&str] = &["/>", " />", "/ >", " a=b/>", " a=\"b\" />", " a=b / >", " a='/'/>", " src=a />", "\n/>", " / />", ">", " >", " a=b>", " a=/>"];
+/// what follows the tag: tag-like text, the element's end tag, another raw-text element, nothing
+const AFTER_RAW: &[&str] = &["<p>x</p><!--c--></~>y<b>", "</~>t<i>", "<~>z</~>w", "", "x", "<p>", "</~ >q", "<!--</~>-->e"];
+
+/// a raw-text element's start tag written with self-closing syntax: `raw_tag()` after it and how the following bytes are
+/// tokenised (the code sets the context before it looks at the solidus)
+fn selfclosing_raw_cases(emit: &mut dyn FnMut(Value)) {
+    for n in RAW_NAMES {
+        for (vi, name) in case_variants(n).iter().enumerate() {
+            for (si, sc) in SELF_CLOSE.iter().enumerate() {
+                // every follower for the lower-case spelling, a rotating pair for the other spellings
+                for (ai, after) in AFTER_RAW.iter().enumerate() {
+                    if vi != 0 && (ai + si + vi) % 4 != 0 {
+                        continue;
+                    }
+                    let d = format!("<{name}{sc}{}", after.replace('~', n));
+                    emit(json!({"bytes": hex(d.as_bytes()), "family": "selfclosing-raw"}));
+                }
+            }
+        }
+    }
+}
+
 /// the fixed boundary cases
 fn boundary_cases(emit: &mut dyn FnMut(Value)) {
     fragment_cases(emit);
+    selfclosing_raw_cases(emit);
     for &n in ATTR_COUNTS {
         emit(json!({"bytes": hex(&many_attrs_doc(n, 6, n % 2 == 0)), "family": "many-attrs"}));
     }
